@@ -246,7 +246,9 @@ def run_passive(rec, spec, rng):
     from qv import sims, workloads
 
     for i in range(spec["sims"]):
-        w = workloads.gen(rng, spec["family"], styles=["plain"], p_scripted=0.15, grand_kinds=["E", "E", "D", "D+E", "D*2+E", "same"])
+        # no scripted criteria here: a scripted verdict on an exchange move changes the particle number without the
+        # criteria under test (and hence the oracle's particle ledger) seeing the trial
+        w = workloads.gen(rng, spec["family"], styles=["plain"], p_scripted=0.0, grand_kinds=["E", "E", "D", "D+E", "D*2+E", "same"])
         try:
             mc, info = sims.build(w)
         except Exception as ex:  # noqa: BLE001
